@@ -250,6 +250,12 @@ def run(ctx: Ctx, tier: str) -> Result:
     merges = [c for c in t.calls_in(cr) if any(x.name == "merge_actions" for x in t.resolve_call(c, cr).repo)]
     need(stores, "convert_response: no dictionary store found")
     for s in stores:
+        is_id = key_is_location_id(ctx, cr, s.targets[0].slice, s.value)
+        if is_id:
+            res.ok("C03.MERGE", {"merge key": "the id of the stored trigger's location"})
+        else:
+            res.fail(Finding("C03.MERGE", cr.qname, s, cr.loc(s), "tracepoints are grouped by `%s`, not by the location id of the trigger that is stored: "
+                             "tracepoints on different locations can be merged into one" % norm(s.targets[0].slice)))
         key, cont = norm(s.targets[0].slice), norm(s.targets[0].value)
         conds = paths.conditions(p, s, cr)
         absent = any(isinstance(c, ast.Compare) and len(c.ops) == 1 and norm(c.left) == key and norm(c.comparators[0]) == cont
@@ -272,6 +278,17 @@ def run(ctx: Ctx, tier: str) -> Result:
         else:
             res.fail(Finding("C03.MERGE", cr.qname, m, cr.loc(m), "merge does not pass all actions of the new trigger"))
     return res
+
+
+def key_is_location_id(ctx: Ctx, f, key: ast.expr, stored: ast.expr) -> bool:
+    """`key` denotes <stored>.id (directly, or through a local bound once to it)."""
+    want = norm(stored) + ".id"
+    if norm(key) == want:
+        return True
+    if isinstance(key, ast.Name):
+        binds = [b for k, b in ctx.types.local_bindings(f, key.id) if k == "assign"]
+        return len(binds) == 1 and binds[0][1] is not None and norm(binds[0][1]) == want
+    return False
 
 
 def check_ctor_field(ctx: Ctx, res: Result, cls_qn: str, prop: str, ctor_index: int):
